@@ -52,6 +52,30 @@ Theorem C13_stream_id_encoding : forall old ids v, zlen ids < 65536 -> zlen v < 
 Proof. exact set_data_if_shape. Qed.
 Print Assumptions C13_stream_id_encoding.
 
+(* the other builders: the class validator accepts what setData built (hence, by C04_consistent_payload_kept, the decoder keeps type and
+   bytes), the length fields carry the lengths, the data sits behind the header *)
+Theorem C13_lin_builder : forall old data, zlen data < 256 ->
+  let raw := set_data 3 old data in valid_lin raw = true /\ u8 raw 7 = zlen data /\ drop 8 raw = data.
+Proof. exact lin_builder_valid. Qed.
+Print Assumptions C13_lin_builder.
+Theorem C13_ethernet_builder : forall old data, zlen data < 65536 -> Z.land (u16 (keep_hdr 8 old) 0) 59 = 0 ->
+  let raw := set_data 8 old data in valid_eth raw = true /\ u16 raw 4 = zlen data /\ drop 6 raw = data.
+Proof. exact eth_builder_valid. Qed.
+Print Assumptions C13_ethernet_builder.
+Theorem C13_analog_builder : forall old data, (let dt := Z.land (u16 (keep_hdr 7 old) 0) 3 in dt = 0 \/ dt = 1) ->
+  let raw := set_data 7 old data in valid_analog raw = true /\ drop 16 raw = data /\ take 16 raw = keep_hdr 7 old.
+Proof. exact analog_builder_valid. Qed.
+Print Assumptions C13_analog_builder.
+Theorem C13_interface_builder_valid : forall old ids v, zlen ids < 65536 -> zlen v < 65536 -> u8 (keep_hdr 50 old) 29 <= 2 ->
+  valid_if (set_data_if old ids v) = true.
+Proof. exact if_builder_valid. Qed.
+Print Assumptions C13_interface_builder_valid.
+Theorem C13_capture_module_builder_valid : forall old s1 s2 s3 s4 v,
+  zlen s1 + 2 < 65536 -> zlen s2 + 2 < 65536 -> zlen s3 + 2 < 65536 -> zlen s4 + 2 < 65536 -> zlen v < 65536 ->
+  valid_cm (set_data_cm old s1 s2 s3 s4 v) = true.
+Proof. exact cm_builder_valid. Qed.
+Print Assumptions C13_capture_module_builder_valid.
+
 (* non-vacuity: the pad byte after an odd stream-id list is zero whatever was set before *)
 Example C13_example :
   set_data_if (set_data_if (zeros 40) [1;2;3;4] []) [9] [] = zeros 36 ++ [0;1;9;0;0;0] /\
